@@ -1,6 +1,7 @@
 import Driver.Proto
 import PdtVerif.Model.StringMatch
 import PdtVerif.Model.StringMatchBatch
+import PdtVerif.Model.StringMatchOracle
 /-! Driver for C01: runs the per-column model of `_string_matching` on every column of a batch
 and evaluates the declarative oracle (`lev` on the cut sequences) next to it.
 
@@ -20,6 +21,12 @@ def levLimit : Nat := 12
 def oracleLev (c : Costs) (r h : List Int) : Rat :=
   if r.length + h.length ≤ levLimit then lev c r h else dpDist c r h
 
+/-- The distances between `r` and every prefix of `h` (`|h| + 1` numbers). Long pairs: all of them off ONE
+run of the DP (`prefixDists`, proved equal to `dpDist` on every prefix: `C01_oracle_prefix`). -/
+def oraclePrefixes (c : Costs) (r h : List Int) : List Rat :=
+  if r.length + h.length ≤ levLimit then (List.range (h.length + 1)).map (fun k => lev c r (h.take k))
+  else prefixDists c r h
+
 /-- case: {"cols": [{"ref": [..R ints..], "hyp": [..H ints..]} ..], "eos": int|null,
 "include_eos", "norm", "exclude_last": bool, "padding": int, "ins","del","sub": "n/d",
 "mode": "scalar"|"prefix", "R", "H": padded sizes, "batch_first": bool}.
@@ -28,7 +35,8 @@ Reply: {"shortcut": bool, "tensor": {"shape": [..], "vals": ["n/d"..] | [["n/d".
   "spec": {"ref_cut": [..], "hyp_cut": [..], "lev": "n/d", "prefix_lev": ["n/d"..] (prefix mode),
            "oracle": "lev"|"dpDist"}} ..]}.
 Fails (machinery error) when the model's value differs from what the theorems say it is. -/
-def c01Batch : Handler := fun j => do
+def c01Core (whole : Bool) : Handler := fun j => do
+  let withModel ← if whole then pure true else getBool j "with_model"
   let cols ← getList (fun cj => do
     let r ← getIntList cj "ref"
     let h ← getIntList cj "hyp"
@@ -52,7 +60,8 @@ def c01Batch : Handler := fun j => do
   let refT := if bf then refSeq.t 0 else refSeq
   let hypT := if bf then hypSeq.t 0 else hypSeq
   let tensorJ ←
-    if mode == "scalar" then
+    if !whole then pure Json.null
+    else if mode == "scalar" then
       match editDistanceT c eos inc norm bf refT hypT 0 with
       | .error e => throw s!"tensor model raised {e} on an in-domain batch"
       | .ok out =>
@@ -77,6 +86,11 @@ def c01Batch : Handler := fun j => do
     let which := if rc.length + hc.length ≤ levLimit then "lev" else "dpDist"
     let normalise := fun (x : Rat) => if norm && rc.length > 0 then x / (rc.length : Rat) else x
     if mode == "scalar" then
+      if !withModel then
+        pure (objJ [("model", Json.null),
+          ("spec", objJ [("ref_cut", listJ intJ rc), ("hyp_cut", listJ intJ hc), ("lev", ratToJson d),
+            ("oracle", strJ which)])])
+      else
       let m := editDistance c eos inc norm r h
       -- C01_pair / C01_norm: the model's value is lev (divided by |ref'| under norm, |ref'| > 0)
       if (!norm || rc.length > 0) && m != normalise d then
@@ -85,8 +99,13 @@ def c01Batch : Handler := fun j => do
         ("spec", objJ [("ref_cut", listJ intJ rc), ("hyp_cut", listJ intJ hc), ("lev", ratToJson d),
           ("oracle", strJ which)])])
     else
+      let pl := oraclePrefixes c rc hc
+      if !withModel then
+        pure (objJ [("model", Json.null),
+          ("spec", objJ [("ref_cut", listJ intJ rc), ("hyp_cut", listJ intJ hc), ("lev", ratToJson d),
+            ("prefix_lev", listJ ratToJson pl), ("oracle", strJ which)])])
+      else
       let m := prefixEditDistances c eos inc norm excl padding r h
-      let pl := (List.range (hc.length + 1)).map (fun k => oracleLev c rc (hc.take k))
       -- C01_prefix: entry k is lev ref' (hyp'.take k) for k < |hyp'| + (0 if excl else 1), padding beyond
       let nRows := h.length + (if excl then 0 else 1)
       let expect := (List.range nRows).map (fun k =>
@@ -120,4 +139,13 @@ def c01Shapes : Handler := fun j => do
       | .ok _ => false
   pure (objJ [("raises", boolJ raises)])
 
-def main : IO Unit := Proto.run [("c01.batch", c01Batch), ("c01.shapes", c01Shapes)]
+/-- op `c01.batch`: a whole batch (per-column model on every column, tensor-level model on the batch, oracle). -/
+def c01Batch : Handler := c01Core true
+
+/-- op `c01.sample`: pairs SAMPLED from a large batch (same fields as `c01.batch`, `"cols"` = the sampled
+columns, plus `"with_model": bool`). The tensor-level model is not run (`"tensor": null`); the per-column
+model (cubic in `R`) only when `with_model`; the oracle (`dpDist` / `prefixDists` on the cut sequences, `lev`
+when short) always. -/
+def c01Sample : Handler := c01Core false
+
+def main : IO Unit := Proto.run [("c01.batch", c01Batch), ("c01.sample", c01Sample), ("c01.shapes", c01Shapes)]
